@@ -395,4 +395,731 @@ theorem step_call {t : Table} (hok : sigOK t = true) {fl : Flags} {Γ Γ' : SEnv
   · exact absurd hop hne1
   · exact absurd hop hne2
 
+/-! ### structural changes that the invariant does not see -/
+
+theorem Inv.setFrames {Γ : SEnv} {σ : DState} (inv : Inv Γ σ) (f : List Var) :
+    Inv { Γ with frames := f } { σ with frames := f } :=
+  ⟨inv.nodup, inv.used, inv.storeUsed, rfl, inv.epochs, inv.typed, inv.closed, inv.vals, inv.handles, inv.uniq⟩
+
+/-- no valid entry holds a loan on a variable that was never declared -/
+theorem Inv.no_loan_on_fresh {Γ : SEnv} {σ : DState} (inv : Inv Γ σ) {v : Var} (hv : v ∉ Γ.used)
+    {e : Entry} (he : e ∈ Γ.ents) (hev : e.valid = true) : e.self.on v = false := by
+  apply Bool.eq_false_iff.2
+  intro hon
+  rcases List.any_eq_true.1 hon with ⟨l, hl, hlo⟩
+  cases l with
+  | frame k => simp [Loan.on] at hlo
+  | borrow q m =>
+    rcases (inv.closed e he hev).2.1 q m hl with ⟨ep, hep, h1, _⟩
+    have : q = v := by simpa [Loan.on] using hlo
+    exact hv (this ▸ h1 ▸ inv.used ep hep)
+
+theorem foldl_remove_frames (ls : List Var) (Γ : SEnv) (f : List Var) :
+    ls.foldl (fun Γ v => Γ.remove v) { Γ with frames := f } = { ls.foldl (fun Γ v => Γ.remove v) Γ with frames := f } := by
+  induction ls generalizing Γ with
+  | nil => rfl
+  | cons v ls ih =>
+    simp only [List.foldl_cons]
+    exact ih (Γ.remove v)
+
+theorem Inv.removeAll {Γ : SEnv} {σ : DState} (inv : Inv Γ σ) (ls : List Var) :
+    Inv (ls.foldl (fun Γ v => Γ.remove v) Γ) σ := by
+  induction ls generalizing Γ with
+  | nil => exact inv
+  | cons v ls ih => exact ih (inv.remove v)
+
+/-- changing only the recorded declaration depth of entries -/
+theorem Inv.mapDepth {Γ : SEnv} {σ : DState} (inv : Inv Γ σ) (f : Entry → Nat) :
+    Inv { Γ with ents := Γ.ents.map fun e => { e with depth := f e } } σ := by
+  have hmem : ∀ e', e' ∈ Γ.ents.map (fun e => { e with depth := f e }) →
+      ∃ e ∈ Γ.ents, e' = { e with depth := f e } := by
+    intro e' he'
+    rcases List.mem_map.1 he' with ⟨e, he, rfl⟩
+    exact ⟨e, he, rfl⟩
+  have hclosed : ∀ e ∈ Γ.ents, Closed Γ e → Closed { Γ with ents := Γ.ents.map fun e => { e with depth := f e } } { e with depth := f e } := by
+    intro e _ hc
+    refine ⟨hc.1, ?_, hc.2.2.1, ?_⟩
+    · intro q m hq
+      rcases hc.2.1 q m hq with ⟨ep, hep, h1, h2, h3, h4⟩
+      exact ⟨{ ep with depth := f ep }, List.mem_map.2 ⟨ep, hep, rfl⟩, h1, h2, h3, h4⟩
+    · intro q m hq ep' hep' hvar l hl
+      rcases hmem ep' hep' with ⟨ep, hep, rfl⟩
+      exact hc.2.2.2 q m hq ep hep hvar l hl
+  constructor
+  · show ((Γ.ents.map fun e => { e with depth := f e }).map (·.var)).Nodup
+    rw [List.map_map]; exact inv.nodup
+  · intro e' he'
+    rcases hmem e' he' with ⟨e, he, rfl⟩; exact inv.used e he
+  · exact inv.storeUsed
+  · exact inv.frames
+  · exact inv.epochs
+  · intro e' he' hv
+    rcases hmem e' he' with ⟨e, he, rfl⟩; exact inv.typed e he hv
+  · intro e' he' hv
+    rcases hmem e' he' with ⟨e, he, rfl⟩; exact hclosed e he (inv.closed e he hv)
+  · intro e' he' hv hk r hr ex hex
+    rcases hmem e' he' with ⟨e, he, rfl⟩
+    rcases inv.vals e he hv hk r hr ex hex with ⟨h1, h2⟩
+    refine ⟨h1, ?_⟩
+    intro g' hg' hgv rg hrg hend
+    rcases hmem g' hg' with ⟨g, hg, rfl⟩
+    exact h2 g hg hgv rg hrg hend
+  · intro h' hh' hv hH rh hrh g' hg' hgv hne rg hrg hon
+    rcases hmem h' hh' with ⟨h, hh, rfl⟩
+    rcases hmem g' hg' with ⟨g, hg, rfl⟩
+    exact inv.handles h hh hv hH rh hrh g hg hgv hne rg hrg hon
+  · intro h1' hh1' hv1 hH1 ha h2' hh2' hv2 hH2 hne r1 r2 hr1 hr2 har
+    rcases hmem h1' hh1' with ⟨h1, hh1, rfl⟩
+    rcases hmem h2' hh2' with ⟨h2, hh2, rfl⟩
+    exact inv.uniq h1 hh1 hv1 hH1 ha h2 hh2 hv2 hH2 hne r1 r2 hr1 hr2 har
+
+/-! ### collections -/
+
+theorem collParam_cases {t : Table} (himpl : t.implLt .refMutBump = none) {k : Kind} {m : Mode} {b : Bool}
+    (h : collParamIsSelf t k m = some b) : (k = .bump ∧ m = .shr ∧ b = true) ∨ (k = .scope ∧ b = false) := by
+  unfold collParamIsSelf at h
+  cases k <;> cases m <;> simp [himpl] at h
+  · exact Or.inl ⟨rfl, rfl, h.2⟩
+  · exact Or.inr ⟨rfl, h.2⟩
+  · exact Or.inr ⟨rfl, h.2⟩
+
+theorem step_coll {t : Table} (hok : sigOK t = true) {fl : Flags} {Γ Γ' : SEnv} {σ : DState} (inv : Inv Γ σ)
+    {v h : Var} {m : Mode} (hc : checkStmt t fl Γ (.coll v h m) = .ok Γ') :
+    ∃ σ', runStmt fl σ (.coll v h m) = .ok σ' ∧ Inv Γ' σ' := by
+  simp only [checkStmt, checkColl] at hc
+  cases hl : Γ.lookupValid h with
+  | error r => rw [hl] at hc; cases hc
+  | ok e =>
+    rw [hl] at hc; simp only at hc
+    rcases lookupValid_ok hl with ⟨he, rfl, hv⟩
+    cases hcp : collParamIsSelf t e.kind m with
+    | none => rw [hcp] at hc; cases hc
+    | some b =>
+      rw [hcp] at hc; simp only at hc
+      cases hacc : Γ.access e m.recv with
+      | error r => rw [hacc] at hc; cases hc
+      | ok Γ1 =>
+        rw [hacc] at hc; simp only at hc
+        rcases inv.get_of_valid he hv with ⟨r, hr, ht⟩
+        have hcases := collParam_cases (sigOK_impls hok) hcp
+        have hfacts : e.kind.scopes = true ∧ e.isHandle = true := by
+          rcases hcases with ⟨hk, _⟩ | ⟨hk, _⟩ <;> simp [hk, Kind.scopes, Entry.isHandle]
+        rcases hfacts with ⟨hsc, heH⟩
+        rcases ht.kind_ne heH with ⟨hk1, hk2, hlive⟩
+        refine ⟨σ.set v (Rt.hdl .coll r.arena), ?_, ?_⟩
+        · simp only [runStmt, hr]
+          have h3 : (σ.epochs r.arena == []) = false := by simpa using hlive
+          simp [ht.1, hsc, h3]
+        · rcases access_afterUse inv he hv hacc with ⟨inv1, hau, hkeepE, hmutacc, _⟩
+          rcases declare_ok hc with ⟨hfresh, rfl⟩
+          have hrm : m.recv.mode = m := by cases m <;> rfl
+          have hnv : m.recv ≠ .value := by cases m <;> simp [Mode.recv]
+          have he1 : e ∈ Γ1.ents := hkeepE hnv
+          rw [hrm] at hau
+          have hc0 := inv.closed e he hv
+          -- the shape of the collection's entry
+          have sh : DerivedShape e m v .scope
+              ⟨v, .coll, m.refAcc, .borrow e.var m :: e.self,
+               if b then .borrow e.var m :: e.self else e.param, true, Γ.depth⟩ := by
+            exact
+              { var := rfl
+                valid := rfl
+                handle := (by simp [Entry.isHandle])
+                self1 := List.mem_cons_self
+                self2 := fun l hl => List.mem_cons_of_mem _ hl
+                self3 := (by
+                  intro l hl
+                  rcases List.mem_cons.1 hl with h | h
+                  · exact Or.inl h
+                  · exact Or.inr (Or.inl h))
+                param := (by
+                  cases b
+                  · exact Or.inr ⟨rfl, rfl⟩
+                  · exact Or.inl ⟨fun l hl => hl, List.mem_cons_self, fun l hl => List.mem_cons_of_mem _ hl⟩)
+                excl := (by
+                  intro hne
+                  cases m
+                  · exact absurd rfl hne
+                  · rfl)
+                ownScope := fun h => by cases h
+                bumpRef := fun h => by cases h
+                guardOwn := fun h => by cases h }
+          apply derived_add inv1 he1 hv heH hr hau.noConflict sh hfresh
+            (fun hm => hmutacc (by subst hm; rfl)) _ (Rt.hdl .coll r.arena) rfl rfl rfl
+          · intro n hn; cases hn
+          · intro hk; cases hk
+          · -- a receiver that can end epochs is a `Bump`: the collection is bounded by the borrow
+            intro hend
+            rcases hcases with ⟨_, _, hb⟩ | ⟨hk, _⟩
+            · rw [hb]; exact List.mem_cons_self
+            · rcases hend with hg | ⟨hb', _⟩
+              · rw [hk] at hg; cases hg
+              · rw [hk] at hb'; cases hb'
+
+/-! ### closures -/
+
+theorem checkEnter_ok {t : Table} {Γ Γ' : SEnv} {s g h : Var} {op : Op} {owner name : String}
+    (hc : checkEnter t Γ s g h op owner name = .ok Γ') :
+    ∃ sig e opens realParam Γ1 Γ2, sig ∈ t.sigs ∧ sig.op = op ∧ sig.ret = .closureResult ∧
+      Γ.lookupValid h = .ok e ∧ applicable t sig.ownerK e = true ∧ closureShape op sig.cl = some (opens, realParam) ∧
+      Γ.access e sig.recv = .ok Γ1 ∧
+      Γ1.declare (if opens then ⟨g, .guard, .own, .borrow e.var sig.recv.mode :: e.self, .borrow e.var sig.recv.mode :: e.self, true, Γ.depth⟩
+                  else ⟨g, .scope, .mutRef, .borrow e.var sig.recv.mode :: e.self,
+                        if realParam then e.param else .borrow e.var sig.recv.mode :: e.self, true, Γ.depth⟩) = .ok Γ2 ∧
+      ({ Γ2 with frames := g :: Γ2.frames } : SEnv).declare
+        ⟨s, .scope, .mutRef, .frame g :: .borrow g .mut :: .borrow e.var sig.recv.mode :: e.self,
+         if realParam then e.param else .frame g :: .borrow g .mut :: .borrow e.var sig.recv.mode :: e.self, true, Γ.depth + 1⟩ = .ok Γ' := by
+  unfold checkEnter at hc
+  cases hl : t.lookup owner name with
+  | none => rw [hl] at hc; cases hc
+  | some sig =>
+    rw [hl] at hc; simp only at hc
+    have hmem : sig ∈ t.sigs := List.mem_of_find?_eq_some hl
+    by_cases hcond : (sig.op != op || sig.ret != .closureResult) = true
+    · rw [if_pos hcond] at hc; cases hc
+    · rw [if_neg hcond] at hc
+      simp only [Bool.or_eq_true, not_or, bne_iff_ne, ne_eq, Decidable.not_not] at hcond
+      cases hle : Γ.lookupValid h with
+      | error r => rw [hle] at hc; cases hc
+      | ok e =>
+        rw [hle] at hc; simp only at hc
+        by_cases happ : (!applicable t sig.ownerK e) = true
+        · rw [if_pos happ] at hc; cases hc
+        · rw [if_neg happ] at hc
+          have happ' : applicable t sig.ownerK e = true := by simpa using happ
+          cases hcs : closureShape op sig.cl with
+          | none => rw [hcs] at hc; cases hc
+          | some pr =>
+            rcases pr with ⟨opens, realParam⟩
+            rw [hcs] at hc; simp only at hc
+            cases hacc : Γ.access e sig.recv with
+            | error r => rw [hacc] at hc; cases hc
+            | ok Γ1 =>
+              rw [hacc] at hc; simp only at hc
+              split at hc
+              · cases hc
+              · rename_i Γ2 hd
+                exact ⟨sig, e, opens, realParam, Γ1, Γ2, hmem, hcond.1, hcond.2, rfl, happ', hcs, hacc, hd, hc⟩
+
+theorem enter_shape {s : Sig} (had : sigAdequate s = true) {op : Op} (hop : s.op = op) {opens realParam : Bool}
+    (hcs : closureShape op s.cl = some (opens, realParam)) :
+    s.recv = .refMut ∧
+    ((op = .enterScoped ∧ opens = true ∧ realParam = false ∧ (s.ownerK = .bump ∨ s.ownerK = .scope ∨ s.ownerK = .trAllocator)) ∨
+     (op = .enterAligned ∧ opens = false ∧ (realParam = true → s.ownerK.hasParam = true) ∧
+        (s.ownerK = .bump ∨ s.ownerK = .scope ∨ s.ownerK = .trScope))) := by
+  unfold sigAdequate at had
+  rw [hop] at had
+  have hown3 : ∀ {a b c : Prop}, ((a ∨ b) ∨ c) → a ∨ b ∨ c := by
+    intro a b c h
+    rcases h with (h | h) | h
+    · exact Or.inl h
+    · exact Or.inr (Or.inl h)
+    · exact Or.inr (Or.inr h)
+  cases op
+  case enterScoped =>
+    simp only [Bool.and_eq_true, Bool.or_eq_true, beq_iff_eq] at had
+    rcases had with ⟨⟨⟨hrecv, _⟩, hcl⟩, hown⟩
+    rw [hcl] at hcs
+    simp [closureShape] at hcs
+    exact ⟨hrecv, Or.inl ⟨rfl, hcs.1, hcs.2, hown3 hown⟩⟩
+  case enterAligned =>
+    simp only [Bool.and_eq_true, Bool.or_eq_true, beq_iff_eq] at had
+    rcases had with ⟨⟨⟨hrecv, _⟩, hcl⟩, hown⟩
+    rcases hcl with hcl | ⟨hcl, hp⟩
+    · rw [hcl] at hcs
+      simp [closureShape] at hcs
+      exact ⟨hrecv, Or.inr ⟨rfl, hcs.1, fun h => (by rw [hcs.2] at h; cases h), hown3 hown⟩⟩
+    · rw [hcl] at hcs
+      simp [closureShape] at hcs
+      exact ⟨hrecv, Or.inr ⟨rfl, hcs.1, fun _ => hp, hown3 hown⟩⟩
+  all_goals (simp [closureShape] at hcs)
+
+/-- the closure parameter `s`, derived from the implicit guard / reborrow `G` (declared last in `Γ2`) -/
+theorem enter_param {Γ2 : SEnv} {σ2 : DState} (inv2 : Inv Γ2 σ2) {G : Entry} (hG : G ∈ Γ2.ents) (hGv : G.valid = true)
+    (hGH : G.isHandle = true) (hGacc : G.acc ≠ .shrRef) {rg : Rt} (hrg : σ2.get G.var = some rg)
+    (hnoloan : ∀ e' ∈ Γ2.ents, e'.valid = true → e'.self.on G.var = false)
+    {s : Var} (hfresh : s ∉ Γ2.used) (d : Nat) (o : Owner) (P : Region)
+    (hP : P = .frame G.var :: .borrow G.var .mut :: G.self ∨ (P = G.param ∧ o.hasParam = true ∧ G.kind = .scope))
+    (f : List Var) :
+    Inv { ents := ⟨s, .scope, .mutRef, .frame G.var :: .borrow G.var .mut :: G.self, P, true, d⟩ :: Γ2.ents,
+          used := s :: Γ2.used, frames := f }
+        { (σ2.set s (Rt.hdl .scope rg.arena)) with frames := f } := by
+  have sh : DerivedShape G .mut s o ⟨s, .scope, .mutRef, .frame G.var :: .borrow G.var .mut :: G.self, P, true, d⟩ :=
+    { var := rfl
+      valid := rfl
+      handle := (by simp [Entry.isHandle])
+      self1 := List.mem_cons_of_mem _ List.mem_cons_self
+      self2 := fun l hl => List.mem_cons_of_mem _ (List.mem_cons_of_mem _ hl)
+      self3 := (by
+        intro l hl
+        rcases List.mem_cons.1 hl with h | h
+        · exact Or.inr (Or.inr ⟨_, h⟩)
+        · rcases List.mem_cons.1 h with h | h
+          · exact Or.inl h
+          · exact Or.inr (Or.inl h))
+      param := (by
+        rcases hP with hP | ⟨hP, ho, _⟩
+        · left; rw [hP]
+          exact ⟨fun l hl => hl, List.mem_cons_of_mem _ List.mem_cons_self,
+                 fun l hl => List.mem_cons_of_mem _ (List.mem_cons_of_mem _ hl)⟩
+        · exact Or.inr ⟨hP, ho⟩)
+      excl := fun _ => rfl
+      ownScope := fun _ h => by cases h
+      bumpRef := fun h => by cases h
+      guardOwn := fun h => by cases h }
+  have := derived_add inv2 hG hGv hGH hrg (m := .mut) (fun e' he' hv' => hnoloan e' he' hv') sh hfresh (fun _ => hGacc)
+    (by
+      intro hend
+      rcases hP with hP | ⟨_, _, hk⟩
+      · rw [hP]; exact List.mem_cons_of_mem _ List.mem_cons_self
+      · rcases hend with h | ⟨h, _⟩ <;> rw [hk] at h <;> cases h)
+    (Rt.hdl .scope rg.arena) rfl rfl rfl (fun n hn => by cases hn) (fun hk => by cases hk)
+  exact this.setFrames f
+
+theorem step_enter {t : Table} (hok : sigOK t = true) {fl : Flags} {Γ Γ' : SEnv} {σ : DState} (inv : Inv Γ σ)
+    {s g h : Var} {op : Op} {owner name : String} (hc : checkStmt t fl Γ (.enter s g h op owner name) = .ok Γ') :
+    ∃ σ', runStmt fl σ (.enter s g h op owner name) = .ok σ' ∧ Inv Γ' σ' := by
+  simp only [checkStmt] at hc
+  rcases checkEnter_ok hc with ⟨sig, e, opens, realParam, Γ1, Γ2, hs, hop, hret, hl, happ, hcs, hacc, hd2, hd3⟩
+  rcases lookupValid_ok hl with ⟨he, rfl, hv⟩
+  rcases inv.get_of_valid he hv with ⟨r, hr, ht⟩
+  rcases enter_shape (sigOK_sig hok hs) hop hcs with ⟨hrecv, hcase⟩
+  have hkinds := applicable_kinds (sigOK_impls hok) happ
+  have hfacts : e.kind.scopes = true ∧ e.isHandle = true := by
+    rcases hcase with ⟨_, _, _, hown⟩ | ⟨_, _, _, hown⟩ <;>
+      rcases hown with ho | ho | ho <;> rw [ho] at hkinds <;> simp only [ownerKinds] at hkinds
+    all_goals (first
+      | (rcases hkinds with h | h | h <;> simp [h, Kind.scopes, Entry.isHandle])
+      | (rcases hkinds with h | h <;> simp [h, Kind.scopes, Entry.isHandle])
+      | simp [hkinds, Kind.scopes, Entry.isHandle])
+  rcases hfacts with ⟨hsc, heH⟩
+  rcases ht.kind_ne heH with ⟨hk1, hk2, hlive⟩
+  have hmode : sig.recv.mode = .mut := by rw [hrecv]; rfl
+  rw [hrecv] at hacc
+  rcases access_afterUse inv he hv hacc with ⟨inv1, hau, hkeepE, hmutacc, _⟩
+  have he1 : e ∈ Γ1.ents := hkeepE (by decide)
+  have heacc : e.acc ≠ .shrRef := hmutacc rfl
+  have hau' : AfterUse Γ Γ1 e .mut := hau
+  rw [hmode] at hd2 hd3
+  have hlive3 : (σ.epochs r.arena == []) = false := by simpa using hlive
+  rcases hcase with ⟨rfl, rfl, rfl, _⟩ | ⟨rfl, rfl, hreal, _⟩
+  · -- scoped / scoped_aligned: an implicit guard with a new epoch
+    simp only [if_true] at hd2
+    simp only [Bool.false_eq_true, if_false] at hd3
+    rcases declare_ok hd2 with ⟨hfg, rfl⟩
+    rcases declare_ok hd3 with ⟨hfs, rfl⟩
+    refine ⟨_, by simp only [runStmt, hr]; simp [ht.1, hsc, hlive3]; rfl, ?_⟩
+    have inv1p := inv1.push r.arena (DState.lt_of_epochs_ne_nil hlive)
+    rcases fresh_guard_epoch inv1 hlive with ⟨f1, f2, f3, f4, f5⟩
+    have shG : DerivedShape e .mut g sig.ownerK
+        ⟨g, .guard, .own, .borrow e.var .mut :: e.self, .borrow e.var .mut :: e.self, true, Γ.depth⟩ :=
+      DerivedShape.mk' .guard .own _ (by decide) (by decide) (Or.inl rfl) (fun _ => rfl) (fun h => by cases h)
+        (fun h => by cases h) (fun _ => rfl)
+    have inv2 := derived_add inv1p he1 hv heH (rh := r) (by simpa using hr) hau'.noConflict shG hfg (fun _ => heacc)
+      (fun _ => List.mem_cons_self) ⟨.guard, r.arena, some σ.next, false, []⟩ rfl rfl rfl
+      (by
+        intro n hn
+        have : n = σ.next := by simpa using hn.symm
+        subst this
+        exact ⟨rfl, f1, f2, f3, f4, fun v hv1 hvv hvk rv hrv => f5 v hv1 hvv hvk rv (by simpa using hrv)⟩)
+      (fun hb => by cases hb)
+    have hfr : Γ1.frames = σ.frames := by rw [hau.frames]; exact inv.frames
+    have := enter_param inv2 (G := ⟨g, .guard, .own, .borrow e.var .mut :: e.self, .borrow e.var .mut :: e.self, true, Γ.depth⟩)
+      List.mem_cons_self rfl (by simp [Entry.isHandle]) (by simp) (DState.get_set_self _ _ _)
+      (by
+        intro e' he' hv'
+        rcases List.mem_cons.1 he' with rfl | he''
+        · exact (inv2.closed _ List.mem_cons_self rfl).2.2.1
+        · exact inv1.no_loan_on_fresh hfg he'' hv')
+      hfs (Γ.depth + 1) sig.ownerK _ (Or.inl rfl) (g :: Γ1.frames)
+    rw [hfr] at this ⊢
+    exact this
+  · -- aligned: an implicit reborrow, no new epoch
+    simp only [Bool.false_eq_true, if_false] at hd2
+    rcases declare_ok hd2 with ⟨hfg, rfl⟩
+    rcases declare_ok hd3 with ⟨hfs, rfl⟩
+    refine ⟨_, by simp only [runStmt, hr]; simp [ht.1, hsc, hlive3]; rfl, ?_⟩
+    have shG : DerivedShape e .mut g sig.ownerK
+        ⟨g, .scope, .mutRef, .borrow e.var .mut :: e.self,
+         if realParam then e.param else .borrow e.var .mut :: e.self, true, Γ.depth⟩ :=
+      DerivedShape.mk' .scope .mutRef _ (by decide) (by decide)
+        (by cases hrp : realParam
+            · exact Or.inl rfl
+            · exact Or.inr ⟨rfl, hreal hrp⟩)
+        (fun _ => rfl) (fun _ h => by cases h) (fun h => by cases h) (fun h => by cases h)
+    have inv2 := derived_add inv1 he1 hv heH hr hau'.noConflict shG hfg (fun _ => heacc)
+      (by
+        intro hend
+        cases hrp : realParam
+        · exact List.mem_cons_self
+        · have := ender_owner_noParam hkinds hend
+          rw [hreal hrp] at this; cases this)
+      (Rt.hdl .scope r.arena) rfl rfl rfl (fun n hn => by cases hn) (fun hb => by cases hb)
+    have hfr : Γ1.frames = σ.frames := by rw [hau.frames]; exact inv.frames
+    have := enter_param inv2 (G := ⟨g, .scope, .mutRef, .borrow e.var .mut :: e.self,
+        if realParam then e.param else .borrow e.var .mut :: e.self, true, Γ.depth⟩)
+      List.mem_cons_self rfl (by simp [Entry.isHandle]) (by simp) (DState.get_set_self _ _ _)
+      (by
+        intro e' he' hv'
+        rcases List.mem_cons.1 he' with rfl | he''
+        · exact (inv2.closed _ List.mem_cons_self rfl).2.2.1
+        · exact inv1.no_loan_on_fresh hfg he'' hv')
+      hfs (Γ.depth + 1) sig.ownerK
+      (if realParam then e.param else .frame g :: .borrow g .mut :: .borrow e.var .mut :: e.self)
+      (by
+        cases hrp : realParam
+        · exact Or.inl rfl
+        · exact Or.inr ⟨by simp, hreal hrp, rfl⟩)
+      (g :: Γ1.frames)
+    rw [hfr] at this ⊢
+    exact this
+
+theorem find_some {Γ : SEnv} {v : Var} {e : Entry} (h : Γ.find v = some e) : e ∈ Γ.ents ∧ e.var = v := by
+  unfold SEnv.find at h
+  exact ⟨List.mem_of_find?_eq_some h, by simpa using List.find?_some h⟩
+
+theorem step_exit {t : Table} {fl : Flags} {Γ Γ' : SEnv} {σ : DState} (inv : Inv Γ σ)
+    {ret : Option Var} (hc : checkStmt t fl Γ (.exit ret) = .ok Γ') :
+    ∃ σ', runStmt fl σ (.exit ret) = .ok σ' ∧ Inv Γ' σ' := by
+  simp only [checkStmt, checkExit] at hc
+  cases hf : Γ.frames with
+  | nil => rw [hf] at hc; cases hc
+  | cons g rest =>
+    rw [hf] at hc; simp only at hc
+    rw [foldl_remove_frames] at hc
+    generalize hΓ1 : ((locals Γ).filter (fun v => some v != ret)).foldl (fun Γ v => Γ.remove v) Γ = Γ1' at hc
+    have inv1 : Inv Γ1' σ := hΓ1 ▸ inv.removeAll _
+    cases hfg : ({ Γ1' with frames := rest } : SEnv).find g with
+    | none => rw [hfg] at hc; cases hc
+    | some eg =>
+      rw [hfg] at hc; simp only at hc
+      by_cases hegv : (!eg.valid) = true
+      · rw [if_pos hegv] at hc; cases hc
+      · rw [if_neg hegv] at hc
+        have hegv' : eg.valid = true := by simpa using hegv
+        have hfg' : Γ1'.find g = some eg := hfg
+        rcases find_some hfg' with ⟨heg, rfl⟩
+        rcases inv1.get_of_valid heg hegv' with ⟨rg, hrg, _⟩
+        rcases dropRt_sound inv1 heg hegv' hrg with ⟨σ1, hd1, inv2, hfr⟩
+        have hσf : σ.frames = eg.var :: rest := by rw [← inv.frames]; exact hf
+        have hrun : runStmt fl σ (.exit ret) = .ok { σ1 with frames := rest } := by
+          simp only [runStmt, hσf, hrg, hd1]
+        have inv3' : Inv (({ Γ1' with frames := rest } : SEnv).remove eg.var) { σ1 with frames := rest } :=
+          inv2.setFrames rest
+        cases ret with
+        | none =>
+          simp only at hc; cases hc
+          exact ⟨_, hrun, inv3'⟩
+        | some r =>
+          simp only at hc
+          cases hfr' : (({ Γ1' with frames := rest } : SEnv).remove eg.var).find r with
+          | none => rw [hfr'] at hc; cases hc
+          | some er =>
+            rw [hfr'] at hc; simp only at hc
+            split at hc
+            · cases hc
+            · split at hc
+              · cases hc
+              · cases hc
+                refine ⟨_, hrun, ?_⟩
+                have := inv3'.mapDepth (fun e => if e.var == r then min e.depth rest.length else e.depth)
+                have heq : ∀ e : Entry, (if (e.var == r) = true then { e with depth := min e.depth rest.length } else e) =
+                    { e with depth := if (e.var == r) = true then min e.depth rest.length else e.depth } := by
+                  intro e; by_cases h : (e.var == r) = true <;> simp [h]
+                simp only [heq]
+                exact this
+
+/-! ### stores into an outer variable -/
+
+/-- the entry of a value variable gets larger regions and is bound to another run-time value -/
+theorem Inv.updateVal {Γ : SEnv} {σ : DState} (inv : Inv Γ σ) {o : Entry} (ho : o ∈ Γ.ents) (hov : o.valid = true)
+    (hok : o.kind = .val) (S' P' : Region) (r' : Rt)
+    (hrk : r'.kind = .val) (hrn : ∀ ex, r'.epoch = some ex → ex < σ.next)
+    (hC : (∀ l ∈ P', l ∈ S') ∧
+          (∀ p m, Loan.borrow p m ∈ S' →
+            ∃ ep ∈ Γ.ents, ep.var = p ∧ ep.valid = true ∧ ep.kind ≠ .val ∧ ∀ l ∈ ep.self, l ∈ S') ∧
+          (∀ p m, Loan.borrow p m ∈ P' → ∀ ep ∈ Γ.ents, ep.var = p → ∀ l ∈ ep.self, l ∈ P'))
+    (hV : ∀ ex, r'.epoch = some ex → ex ∈ σ.epochs r'.arena ∧
+          ∀ g ∈ Γ.ents, g.valid = true → ∀ rg, σ.get g.var = some rg → Ender σ g rg r'.arena ex → S'.on g.var = true) :
+    Inv { Γ with ents := Γ.ents.map fun e => if e.var == o.var then { e with self := S', param := P' } else e }
+        (σ.set o.var r') := by
+  -- membership in the new environment
+  have hmem : ∀ e', e' ∈ (Γ.ents.map fun e => if e.var == o.var then { e with self := S', param := P' } else e) →
+      (e' = { o with self := S', param := P' }) ∨ (e' ∈ Γ.ents ∧ e'.var ≠ o.var) := by
+    intro e' he'
+    rcases List.mem_map.1 he' with ⟨e, he, rfl⟩
+    by_cases hx : e.var = o.var
+    · have := inv.eq_of_var_eq he ho hx; subst this
+      left; simp
+    · right
+      have : (e.var == o.var) = false := by simpa using hx
+      simp [this]; exact ⟨he, hx⟩
+  have hkeep : ∀ e ∈ Γ.ents, e.var ≠ o.var →
+      e ∈ (Γ.ents.map fun e => if e.var == o.var then { e with self := S', param := P' } else e) := by
+    intro e he hx
+    refine List.mem_map.2 ⟨e, he, ?_⟩
+    have : (e.var == o.var) = false := by simpa using hx
+    simp [this]
+  -- a place that is borrowed is not the value variable `o`
+  have hplace : ∀ ep ∈ Γ.ents, ep.kind ≠ .val → ep.var ≠ o.var := by
+    intro ep hep hk hx
+    have := inv.eq_of_var_eq hep ho hx; subst this
+    exact hk hok
+  have hget : ∀ e ∈ Γ.ents, e.var ≠ o.var → (σ.set o.var r').get e.var = σ.get e.var :=
+    fun e _ hx => DState.get_set_ne σ r' hx
+  have hnotEnder : ∀ (e' : Entry) (re : Rt) a, e'.kind = .val → ¬ EnderOn σ e' re a := by
+    intro e' re a hk hon
+    rcases hon with ⟨hk', _⟩ | ⟨hk', _⟩ | ⟨hk', _⟩ <;> rw [hk] at hk' <;> cases hk'
+  constructor
+  · show ((Γ.ents.map fun e => if e.var == o.var then { e with self := S', param := P' } else e).map (·.var)).Nodup
+    rw [List.map_map]
+    have : ((fun e : Entry => e.var) ∘ fun e => if e.var == o.var then { e with self := S', param := P' } else e) = (·.var) := by
+      funext e
+      show (if (e.var == o.var) = true then ({ e with self := S', param := P' } : Entry) else e).var = e.var
+      split <;> rfl
+    rw [this]; exact inv.nodup
+  · intro e' he'
+    rcases hmem e' he' with rfl | ⟨he, _⟩
+    · exact inv.used o ho
+    · exact inv.used e' he
+  · intro p hp
+    rcases List.mem_cons.1 hp with rfl | hp
+    · exact inv.used o ho
+    · exact inv.storeUsed p hp
+  · exact inv.frames
+  · exact inv.epochs
+  · intro e' he' hv
+    rcases hmem e' he' with rfl | ⟨he, hx⟩
+    · refine ⟨r', DState.get_set_self σ _ r', hrk.trans hok.symm, ?_, ?_, ?_, ?_, hrn, ?_⟩
+      · intro h; rw [hok] at h; cases h
+      · intro h; rw [hok] at h; cases h
+      · intro h; simp [Entry.isHandle, hok] at h
+      · intro h; rw [hok] at h; cases h
+      · intro h; rw [hok] at h; cases h
+    · rcases inv.typed e' he hv with ⟨r0, hr0, ht⟩
+      exact ⟨r0, by rw [hget e' he hx]; exact hr0, ht⟩
+  · intro e' he' hv
+    rcases hmem e' he' with rfl | ⟨he, hx⟩
+    · have hfree : Region.on S' o.var = false := by
+        apply Bool.eq_false_iff.2
+        intro hon
+        rcases List.any_eq_true.1 hon with ⟨l, hl, hlo⟩
+        cases l with
+        | frame k => simp [Loan.on] at hlo
+        | borrow q m =>
+          rcases hC.2.1 q m hl with ⟨ep, hep, h1, _, h3, _⟩
+          have : q = o.var := by simpa [Loan.on] using hlo
+          exact hplace ep hep h3 (h1.trans this)
+      refine ⟨hC.1, ?_, hfree, ?_⟩
+      · intro q m hq
+        rcases hC.2.1 q m hq with ⟨ep, hep, h1, h2, h3, h4⟩
+        exact ⟨ep, hkeep ep hep (hplace ep hep h3), h1, h2, h3, h4⟩
+      · intro q m hq ep' hep' hvar l hl
+        rcases hmem ep' hep' with rfl | ⟨hep, _⟩
+        · -- the borrowed place would be the value variable itself
+          exfalso
+          have : Region.on S' o.var = true :=
+            List.any_eq_true.2 ⟨_, hC.1 _ hq, by simp [Loan.on]; exact hvar.symm⟩
+          rw [hfree] at this; exact Bool.false_ne_true this
+        · exact hC.2.2 q m hq ep' hep hvar l hl
+    · have hc := inv.closed e' he hv
+      refine ⟨hc.1, ?_, hc.2.2.1, ?_⟩
+      · intro q m hq
+        rcases hc.2.1 q m hq with ⟨ep, hep, h1, h2, h3, h4⟩
+        exact ⟨ep, hkeep ep hep (hplace ep hep h3), h1, h2, h3, h4⟩
+      · intro q m hq ep' hep' hvar l hl
+        rcases hmem ep' hep' with rfl | ⟨hep, _⟩
+        · exfalso
+          rcases hc.2.1 q m (hc.1 _ hq) with ⟨ep0, hep0, h1, _, h3, _⟩
+          exact hplace ep0 hep0 h3 (h1.trans hvar.symm)
+        · exact hc.2.2.2 q m hq ep' hep hvar l hl
+  · intro e' he' hv hk r0 hr0 ex hex
+    rcases hmem e' he' with rfl | ⟨he, hx⟩
+    · rw [DState.get_set_self] at hr0; cases hr0
+      rcases hV ex hex with ⟨h1, h2⟩
+      refine ⟨h1, ?_⟩
+      intro g' hg' hgv rg hrg hend
+      rcases hmem g' hg' with rfl | ⟨hg, hgx⟩
+      · exact absurd hend.1 (hnotEnder _ _ _ hok)
+      · rw [hget g' hg hgx] at hrg
+        exact h2 g' hg hgv rg hrg hend
+    · rw [hget e' he hx] at hr0
+      rcases inv.vals e' he hv hk r0 hr0 ex hex with ⟨h1, h2⟩
+      refine ⟨h1, ?_⟩
+      intro g' hg' hgv rg hrg hend
+      rcases hmem g' hg' with rfl | ⟨hg, hgx⟩
+      · exact absurd hend.1 (hnotEnder _ _ _ hok)
+      · rw [hget g' hg hgx] at hrg
+        exact h2 g' hg hgv rg hrg hend
+  · intro h' hh' hv hH rh hrh g' hg' hgv hne rg hrg hon
+    rcases hmem h' hh' with rfl | ⟨hh, hhx⟩
+    · simp [Entry.isHandle, hok] at hH
+    · rcases hmem g' hg' with rfl | ⟨hg, hgx⟩
+      · exact absurd hon (hnotEnder _ _ _ hok)
+      · rw [hget h' hh hhx] at hrh
+        rw [hget g' hg hgx] at hrg
+        exact inv.handles h' hh hv hH rh hrh g' hg hgv hne rg hrg hon
+  · intro h1' hh1' hv1 hH1 ha h2' hh2' hv2 hH2 hne r1 r2 hr1 hr2 har
+    rcases hmem h1' hh1' with rfl | ⟨hh1, hx1⟩
+    · simp [Entry.isHandle, hok] at hH1
+    · rcases hmem h2' hh2' with rfl | ⟨hh2, hx2⟩
+      · simp [Entry.isHandle, hok] at hH2
+      · rw [hget h1' hh1 hx1] at hr1
+        rw [hget h2' hh2 hx2] at hr2
+        exact inv.uniq h1' hh1 hv1 hH1 ha h2' hh2 hv2 hH2 hne r1 r2 hr1 hr2 har
+
+theorem step_store {t : Table} {fl : Flags} {Γ Γ' : SEnv} {σ : DState} (inv : Inv Γ σ)
+    {o x : Var} (hc : checkStmt t fl Γ (.store o x) = .ok Γ') :
+    ∃ σ', runStmt fl σ (.store o x) = .ok σ' ∧ Inv Γ' σ' := by
+  simp only [checkStmt, checkStore] at hc
+  cases hlo : Γ.lookupValid o with
+  | error r => rw [hlo] at hc; cases hc
+  | ok eo =>
+    rw [hlo] at hc; simp only at hc
+    cases hlx : Γ.lookupValid x with
+    | error r => rw [hlx] at hc; cases hc
+    | ok ex =>
+      rw [hlx] at hc; simp only at hc
+      split at hc
+      · cases hc
+      · rename_i hcond
+        split at hc
+        · cases hc
+        · cases hc
+          simp only [Bool.or_eq_true, not_or, bne_iff_ne, ne_eq, Decidable.not_not, beq_iff_eq] at hcond
+          rcases hcond with ⟨⟨hko, hkx⟩, hox⟩
+          rcases lookupValid_ok hlo with ⟨heo, rfl, hvo⟩
+          rcases lookupValid_ok hlx with ⟨hex, rfl, hvx⟩
+          rcases inv.get_of_valid heo hvo with ⟨ro, hro, hto⟩
+          rcases inv.get_of_valid hex hvx with ⟨rx, hrx, htx⟩
+          have halive := inv.alive heo hvo hko hro
+          refine ⟨σ.set eo.var rx, by simp only [runStmt, hro, hrx]; simp [halive], ?_⟩
+          have inv1 := inv.remove ex.var
+          have hcx := inv.closed ex hex hvx
+          have hco := inv.closed eo heo hvo
+          -- a value variable is never a borrowed place
+          have hnoval : ∀ (e v : Entry), e ∈ Γ.ents → e.valid = true → v ∈ Γ.ents → v.kind = .val → e.self.on v.var = false := by
+            intro e v he hev hv hvk
+            apply Bool.eq_false_iff.2
+            intro hon
+            rcases List.any_eq_true.1 hon with ⟨l, hl, hlo'⟩
+            cases l with
+            | frame k => simp [Loan.on] at hlo'
+            | borrow q m =>
+              rcases (inv.closed e he hev).2.1 q m hl with ⟨ep, hep, h1, _, h3, _⟩
+              have : q = v.var := by simpa [Loan.on] using hlo'
+              have := inv.eq_of_var_eq hep hv (h1.trans this)
+              subst this; exact h3 hvk
+          have heo1 : eo ∈ (Γ.remove ex.var).ents :=
+            List.mem_filter.2 ⟨mem_killEnts_of_survivor heo (hnoval eo ex heo hvo hex hkx), by simpa using hox⟩
+          -- places borrowed by `x` survive the move of `x`
+          have hkeepx : ∀ ep ∈ Γ.ents, ep.valid = true → (∀ l ∈ ep.self, l ∈ ex.self) → ep.kind ≠ .val → ep ∈ (Γ.remove ex.var).ents := by
+            intro ep hep _ hsub hk
+            refine List.mem_filter.2 ⟨mem_killEnts_of_survivor hep (any_false_of_subset hsub hcx.2.2.1), ?_⟩
+            have : ep.var ≠ ex.var := fun h => by
+              have := inv.eq_of_var_eq hep hex h; subst this; exact hk hkx
+            simpa using this
+          have hkeepo : ∀ ep ∈ Γ.ents, ep.valid = true → (∀ l ∈ ep.self, l ∈ eo.self) → ep.kind ≠ .val → ep ∈ (Γ.remove ex.var).ents := by
+            intro ep hep hepv hsub hk
+            refine List.mem_filter.2 ⟨mem_killEnts_of_survivor hep ?_, ?_⟩
+            · exact hnoval ep ex hep hepv hex hkx
+            · have : ep.var ≠ ex.var := fun h => by
+                have := inv.eq_of_var_eq hep hex h; subst this; exact hk hkx
+              simpa using this
+          have hsubΓ : ∀ ep, ep ∈ (Γ.remove ex.var).ents → ∃ ep0 ∈ Γ.ents, ep0.var = ep.var ∧ ep0.self = ep.self := by
+            intro ep hep
+            have h1 := (List.mem_filter.1 hep).1
+            rcases mem_killEnts h1 with ⟨ep0, hep0, rfl⟩
+            exact ⟨ep0, hep0, by simp, by simp⟩
+          have hmapeq : ((Γ.remove ex.var).ents.map fun e =>
+                if e.var == eo.var then { e with self := e.self ++ ex.self, param := e.param ++ ex.self } else e) =
+              ((Γ.remove ex.var).ents.map fun e =>
+                if e.var == eo.var then { e with self := eo.self ++ ex.self, param := eo.param ++ ex.self } else e) := by
+            apply List.map_congr_left
+            intro e he
+            by_cases hx : (e.var == eo.var) = true
+            · have := inv1.eq_of_var_eq he heo1 (by simpa using hx)
+              subst this; rfl
+            · simp [hx]
+          show Inv { (Γ.remove ex.var) with ents := _ } _
+          rw [hmapeq]
+          apply inv1.updateVal heo1 hvo hko (eo.self ++ ex.self) (eo.param ++ ex.self) rx (htx.1.trans hkx) htx.2.2.2.2.2.1
+          · refine ⟨?_, ?_, ?_⟩
+            · intro l hl
+              rcases List.mem_append.1 hl with h | h
+              · exact List.mem_append_left _ (hco.1 l h)
+              · exact List.mem_append_right _ h
+            · intro p m hp
+              rcases List.mem_append.1 hp with h | h
+              · rcases hco.2.1 p m h with ⟨ep, hep, h1, h2, h3, h4⟩
+                exact ⟨ep, hkeepo ep hep h2 h4 h3, h1, h2, h3, fun l hl => List.mem_append_left _ (h4 l hl)⟩
+              · rcases hcx.2.1 p m h with ⟨ep, hep, h1, h2, h3, h4⟩
+                exact ⟨ep, hkeepx ep hep h2 h4 h3, h1, h2, h3, fun l hl => List.mem_append_right _ (h4 l hl)⟩
+            · intro p m hp ep hep hvar l hl
+              rcases hsubΓ ep hep with ⟨ep0, hep0, hv0, hs0⟩
+              rw [← hs0] at hl
+              rcases List.mem_append.1 hp with h | h
+              · exact List.mem_append_left _ (hco.2.2.2 p m h ep0 hep0 (hv0.trans hvar) l hl)
+              · rcases hcx.2.1 p m h with ⟨ep1, hep1, h1, _, _, h4⟩
+                have := inv.eq_of_var_eq hep0 hep1 ((hv0.trans hvar).trans h1.symm)
+                subst this
+                exact List.mem_append_right _ (h4 l hl)
+          · intro e' he'
+            rcases inv.vals ex hex hvx hkx rx hrx e' he' with ⟨h1, h2⟩
+            refine ⟨h1, ?_⟩
+            intro g hg hgv rg hrg hend
+            rcases mem_remove_valid hg hgv with ⟨hgΓ, _, _⟩
+            have := h2 g hgΓ hgv rg hrg hend
+            exact Region.on_of_subset (fun l hl => List.mem_append_right _ hl) this
+
+/-- **one step**: a statement accepted by the type checker runs without a fault and re-establishes the invariant -/
+theorem step_sound {t : Table} (hok : sigOK t = true) {fl : Flags} {Γ Γ' : SEnv} {σ : DState} (inv : Inv Γ σ)
+    (st : Stmt) (hc : checkStmt t fl Γ st = .ok Γ') : ∃ σ', runStmt fl σ st = .ok σ' ∧ Inv Γ' σ' := by
+  cases st with
+  | newBump b => exact step_newBump inv (by simpa only [checkStmt] using hc)
+  | newPool p => exact step_newPool inv (by simpa only [checkStmt] using hc)
+  | call x h op owner name => exact step_call hok inv hc
+  | coll v h m => exact step_coll hok inv hc
+  | enter s g h op owner name => exact step_enter hok inv hc
+  | exit ret => exact step_exit inv hc
+  | use x => exact step_use inv hc
+  | drop x => exact step_drop inv hc
+  | slot o => exact step_slot inv (by simpa only [checkStmt] using hc)
+  | store o x => exact step_store inv hc
+  | send x => exact step_send hok inv hc
+  | share x => exact step_share hok inv hc
+
+theorem Inv.empty : Inv SEnv.empty DState.empty := by
+  constructor
+  · simp [SEnv.empty]
+  · intro e he; cases he
+  · intro p hp; cases hp
+  · rfl
+  · intro a; simp [DState.empty, DState.epochs]
+  · intro e he; cases he
+  · intro e he; cases he
+  · intro e he; cases he
+  · intro e he; cases he
+  · intro e he; cases he
+
+/-- **soundness**: a program accepted by the type checker runs to completion without a fault, from any state
+    that satisfies the invariant -/
+theorem check_sound {t : Table} (hok : sigOK t = true) (fl : Flags) (p : List Stmt) :
+    ∀ {Γ Γ' : SEnv} {σ : DState}, Inv Γ σ → check t fl Γ p = .ok Γ' → ∃ σ', run fl σ p = .ok σ' ∧ Inv Γ' σ' := by
+  induction p with
+  | nil =>
+    intro Γ Γ' σ inv hc
+    simp only [check] at hc; cases hc
+    exact ⟨σ, rfl, inv⟩
+  | cons st rest ih =>
+    intro Γ Γ' σ inv hc
+    simp only [check] at hc
+    cases hst : checkStmt t fl Γ st with
+    | error r => rw [hst] at hc; cases hc
+    | ok Γ1 =>
+      rw [hst] at hc; simp only at hc
+      rcases step_sound hok inv st hst with ⟨σ1, hrun, inv1⟩
+      rcases ih inv1 hc with ⟨σ', hrun', inv'⟩
+      exact ⟨σ', by simp only [run, hrun]; exact hrun', inv'⟩
+
 end Life
